@@ -11,7 +11,9 @@ rm -f $d/change.patch
 echo "patch: $(grep -c '^[-+][^-+]' $d/patch.diff) changed lines in $(grep -c '^diff' $d/patch.diff) file(s)"
 cd /repo && git apply --check $d/patch.diff || { echo "patch does not apply to /repo HEAD"; exit 2; }
 git apply $d/patch.diff
+cp /verif/evidence/$3.json /tmp/seedtake_ev_$3.json 2>/dev/null
 cd /verif && ./check $3 quick > /tmp/seedrun_$2.log 2>&1; echo "exit=$?"
+cp /tmp/seedtake_ev_$3.json /verif/evidence/$3.json 2>/dev/null  # the evidence file must describe the unchanged tree
 git -C /repo apply -R $d/patch.diff
 grep -E "^VIOLATION|^KNOWN|^property" /tmp/seedrun_$2.log | cut -c1-420
 git -C /repo status --short | head -3
